@@ -23,20 +23,49 @@ open EdbVerif.Types EdbVerif.Gen.Types
 
 /-! ### common type = least upper bound -/
 
-/-- The implicit-cast relation is a partial order on types (on the generated cast graph). -/
+/-- The implicit-cast relation (`implicitly_castable_to`) is a preorder on types; it is a partial
+    order on types without user-derived scalars.  (A user scalar and its concrete base are
+    implicitly castable to EACH OTHER: the relation looks only at topmost concrete bases.) -/
 theorem implicit_cast_order :
     (∀ a : Ty, Le a a) ∧ (∀ a b c : Ty, Le a b → Le b c → Le a c) ∧
-    (∀ a b : Ty, Le a b → Le b a → a = b) :=
-  ⟨Le.refl, fun _ _ _ => Le.trans, fun _ _ => Le.antisymm⟩
+    (∀ a b : Ty, plain a = true → plain b = true → Le a b → Le b a → a = b) :=
+  ⟨Le.refl, fun _ _ _ => Le.trans, fun _ _ pa pb => Le.antisymm pa pb⟩
 
-/-- **common_lub.**  `find_common_implicitly_castable_type a b` returns `c` exactly when `c` is
-    the least upper bound of `a` and `b` in the implicit-cast order — for scalars, tuples and
-    arrays (element-wise) and object types.  In particular it returns nothing only when `a` and
-    `b` have no upper bound at all.  The real algorithm guarantees this only on a cast graph that
-    is a (partial) join-semilattice in which its greedy climb cannot overshoot; that hypothesis
-    on the GENERATED graph is `scalarTable` (`decide +kernel` over `Gen.Types`). -/
-theorem common_lub (a b c : Ty) : commonType a b = some c ↔ IsLUB a b c :=
+/-- **common_lub.**  `find_common_implicitly_castable_type a b`, when it returns `c`, returns a
+    least upper bound of `a` and `b` in the implicit-cast order — scalars (std, user-derived,
+    enums), tuples and arrays element-wise, object types — and it returns one whenever `a` and `b`
+    have any least upper bound, the same up to mutual castability.  The real algorithm guarantees
+    this only on a cast graph that is a (partial) join-semilattice in which its greedy climb cannot
+    overshoot; that hypothesis on the GENERATED graph is `scalarTable` (`decide +kernel`). -/
+theorem common_lub (a b c : Ty) :
+    (commonType a b = some c → IsLUB a b c) ∧
+    (IsLUB a b c → ∃ c', commonType a b = some c' ∧ Equiv c' c) :=
   commonType_isLUB a b c
+
+/-- Without user-derived scalars the order is antisymmetric and the statement is an exact iff. -/
+theorem common_lub_plain (a b c : Ty) (pa : plain a = true) (pc : plain c = true) :
+    commonType a b = some c ↔ IsLUB a b c :=
+  commonType_isLUB_plain a b c pa pc
+
+/-- **Value soundness of the common type** (the order with "derived below base"): both operands
+    CONVERT to the common type, i.e. it is reached from each operand by keeping the type or by
+    an implicit cast of its concrete base to a std scalar.  In particular the common type is never
+    a user-derived scalar that one of the operands is not already an instance of: `[<myint>1, 2]`
+    is an `array<int64>`, not an `array<myint>`. -/
+theorem common_value_sound (a b c : Ty) (h : commonType a b = some c) : Conv a c ∧ Conv b c :=
+  commonType_conv a b c h
+
+/-- Two scalars with the same concrete base — a user scalar and its base, two siblings, a
+    second-level derivation and its parent, or the SAME user scalar twice — have that base as their
+    common type (`if left == right: return schema, left` on the topmost concrete bases). -/
+theorem common_same_base (a b : Sc) (x : Scalar) (ha : a.top = some x) (hb : b.top = some x) :
+    commonType (.scalar a) (.scalar b) = some (.scalar (.base x)) := by
+  have : commonScalar x x = some x := by
+    rcases commonScalar_spec x x with ⟨_, hn⟩ | ⟨c, hc, hl⟩
+    · exact absurd ⟨castableS_refl x, castableS_refl x⟩ (hn x)
+    · rw [lubB_iff] at hl
+      rw [hc, castableS_antisymm (hl.2.2 x (castableS_refl x) (castableS_refl x)) hl.1]
+  simp [commonType, commonSc, ha, hb, this]
 
 /-- The scalar algorithm iterates over Python `set`s of casts; `commonS` collects the results of
     ALL iteration orders.  On the generated table there is never a choice: no upper bound and no
@@ -51,13 +80,8 @@ theorem common_set_order_irrelevant (a b : Scalar) :
 
 /-- `commonType` is symmetric: UNION / `??` / IF-ELSE / set and array constructors do not type by
     the left operand. -/
-theorem common_symmetric (a b : Ty) : commonType a b = commonType b a := by
-  cases h : commonType a b with
-  | some c => exact (commonType_comm_some a b c h).symm
-  | none =>
-    cases h' : commonType b a with
-    | none => rfl
-    | some c => rw [commonType_comm_some b a c h'] at h; cases h
+theorem common_symmetric (a b : Ty) : commonType a b = commonType b a :=
+  commonType_comm a b
 
 /-- **castDist = shortest path.**  `get_implicit_cast_distance` is the shortest-path metric of the
     generated implicit-cast graph: 0 on the diagonal, 1 along a declared cast, the triangle
@@ -142,8 +166,8 @@ theorem operator_recursive_flag_uniform (f : Fn) :
     Generated obligation (`decide +kernel` over `Gen.Types`). -/
 theorem numeric_table (f : Fn) (hf : f ∈ arith) (a b : Scalar) (ha : a ∈ numeric) (hb : b ∈ numeric) :
     (∀ r, promote f a b = some r →
-        ∃ bd, resolve f [.scalar a, .scalar b] = .ok bd ∧ bd.ret = .scalar r) ∧
-    (promote f a b = none → resolve f [.scalar a, .scalar b] = .noMatch) := by
+        ∃ bd, resolve f [.scalar (.base a), .scalar (.base b)] = .ok bd ∧ bd.ret = .scalar (.base r)) ∧
+    (promote f a b = none → resolve f [.scalar (.base a), .scalar (.base b)] = .noMatch) := by
   have h := numericTable
   simp only [numericTableOK, List.all_eq_true, Bool.and_eq_true] at h
   have h1 := ((h f hf).2 a ha).2 b hb
@@ -177,9 +201,9 @@ theorem arith_overloads_closed (f : Fn) (hf : f ∈ arith) (c : Callable) (hc : 
 /-- Comparison of two numeric types resolves (unambiguously, to `bool`) exactly when the two
     types have a common type. -/
 theorem compare_table (f : Fn) (hf : f ∈ compare) (a b : Scalar) (ha : a ∈ numeric) (hb : b ∈ numeric) :
-    (∃ bd, resolve f [.scalar a, .scalar b] = .ok bd ∧ bd.ret = .scalar .bool ∧
+    (∃ bd, resolve f [.scalar (.base a), .scalar (.base b)] = .ok bd ∧ bd.ret = .scalar (.base .bool) ∧
         (commonScalar a b).isSome = true) ∨
-    (resolve f [.scalar a, .scalar b] = .noMatch ∧ commonScalar a b = none) := by
+    (resolve f [.scalar (.base a), .scalar (.base b)] = .noMatch ∧ commonScalar a b = none) := by
   have h := compareTable
   simp only [compareTableOK, List.all_eq_true, Bool.and_eq_true] at h
   have h1 := (h f hf a ha b hb).2
@@ -203,7 +227,8 @@ theorem compare_table (f : Fn) (hf : f ∈ compare) (a b : Scalar) (ha : a ∈ n
     FULL statement (DESIGN §4): the same without the hypothesis `inCalc`.
     What is missing: `inCalc sch [] q` asks, at every call node, that (1) the values the primitive of
     the selected overload produces have the declared return type (`primRet f ptys = some ret`) and
-    (2) every argument type is implicitly castable to the parameter type it is converted to.  Both
+    (2) every argument type CONVERTS (`convertible`: value inclusion, derived-below-base) to the
+    parameter type it is converted to.  Both
     are consequences of the signature table and of `bindCand`; they are PROVED here for arithmetic and
     comparison on numeric scalars (`call_in_calculus_numeric`) and CHECKED by the driver on every
     query the real compiler accepts in the differential run (a failure is reported as
@@ -243,7 +268,7 @@ theorem hasType_unique (v : Val) (t : Ty) (h : hasType v t) : typeOf v = t :=
 /-- The side condition of `C12_sound_partial` holds for arithmetic and comparison operators applied
     to numeric scalar types (generated obligation). -/
 theorem call_in_calculus_numeric (f : Fn) (hf : f ∈ arith ∨ f ∈ compare) (a b : Scalar)
-    (ha : a ∈ numeric) (hb : b ∈ numeric) : callOK f [.scalar a, .scalar b] = true := by
+    (ha : a ∈ numeric) (hb : b ∈ numeric) : callOK f [.scalar (.base a), .scalar (.base b)] = true := by
   rcases hf with hf | hf
   · have h := numericTable
     simp only [numericTableOK, List.all_eq_true, Bool.and_eq_true] at h
@@ -258,7 +283,8 @@ instance : DecidableEq Ty := fun a b =>
   if h : Ty.beq a b = true then isTrue (Ty.beq_eq a b h)
   else isFalse fun e => h (e ▸ Ty.beq_refl a)
 
-def exSchema : Schema := [⟨[.scalar .str, .scalar .int16, .scalar .float32, .obj 0]⟩]
+def exSchema : Schema :=
+  [⟨[.scalar (.base .str), .scalar (.base .int16), .scalar (.base .float32), .obj 0]⟩]
 
 def exDB : DB :=
   [⟨0, 1, [[.str "a"], [.num .int16 3 0], [.num .float32 1 1], [.obj 0 2]]⟩,
@@ -272,7 +298,8 @@ def exQ : Q :=
     .array [.path (.var 0) 1, .lit (.int64 10)]])
 
 example : inferType exSchema [] exQ =
-    some (.tuple [.scalar .float32, .scalar .float64, .array (.scalar .int64)]) := by decide +kernel
+    some (.tuple [.scalar (.base .float32), .scalar (.base .float64), .array (.scalar (.base .int64))]) := by
+  decide +kernel
 
 example : inCalc exSchema [] exQ = true := by decide +kernel
 
@@ -294,21 +321,49 @@ example : Conforms exSchema exDB := by
     | 3, hp => cases hp; exact ⟨_, rfl, by simp⟩
 
 /-- least upper bounds that exist and one that does not -/
-example : commonType (.tuple [.scalar .int64, .scalar .str]) (.tuple [.scalar .float32, .scalar .str]) =
-    some (.tuple [.scalar .float64, .scalar .str]) := by decide +kernel
-example : commonType (.scalar .bigint) (.scalar .float64) = none := by decide +kernel
-example : commonType (.array (.scalar .int16)) (.array (.scalar .decimal)) =
-    some (.array (.scalar .decimal)) := by decide +kernel
+example : commonType (.tuple [.scalar (.base .int64), .scalar (.base .str)])
+    (.tuple [.scalar (.base .float32), .scalar (.base .str)]) =
+    some (.tuple [.scalar (.base .float64), .scalar (.base .str)]) := by decide +kernel
+example : commonType (.scalar (.base .bigint)) (.scalar (.base .float64)) = none := by decide +kernel
+example : commonType (.array (.scalar (.base .int16))) (.array (.scalar (.base .decimal))) =
+    some (.array (.scalar (.base .decimal))) := by decide +kernel
+
+/-- user scalars: `myint extending int64`, `yourint extending int64`, `posint extending myint` -/
+def myint : Ty := .scalar (.derived [1] .int64)
+def yourint : Ty := .scalar (.derived [2] .int64)
+def posint : Ty := .scalar (.derived [3, 1] .int64)
+
+example : commonType myint (.scalar (.base .int64)) = some (.scalar (.base .int64)) := by decide +kernel
+example : commonType myint yourint = some (.scalar (.base .int64)) := by decide +kernel
+example : commonType posint myint = some (.scalar (.base .int64)) := by decide +kernel
+example : commonType myint myint = some (.scalar (.base .int64)) := by decide +kernel
+example : commonType (.array myint) (.array myint) = some (.array myint) := by decide +kernel
+example : commonType myint (.scalar (.base .float64)) = some (.scalar (.base .float64)) := by
+  decide +kernel
+/-- `int64` is implicitly castable to `myint` (preorder) but does not convert to it -/
+example : implCastable (.scalar (.base .int64)) myint = true ∧
+    convertible (.scalar (.base .int64)) myint = false ∧
+    convertible myint (.scalar (.base .int64)) = true := by decide +kernel
+/-- `[<myint>1, 2] : array<int64>`; `{<myint>1, <myint>2} : myint` (the equality shortcut of
+    overload resolution); `[<myint>1, <myint>2] : array<int64>` (no shortcut in `infer_common_type`) -/
+example : inferType [] [] (.array [.cast myint (.lit (.int64 1)), .lit (.int64 2)]) =
+    some (.array (.scalar (.base .int64))) := by decide +kernel
+example : inferType [] [] (.call .op_union [.cast myint (.lit (.int64 1)), .cast myint (.lit (.int64 2))]) =
+    some myint := by decide +kernel
+example : inferType [] [] (.array [.cast myint (.lit (.int64 1)), .cast myint (.lit (.int64 2))]) =
+    some (.array (.scalar (.base .int64))) := by decide +kernel
 
 /-- `sum(int16)`: `sum(int32)` and `sum(float32)` tie on cast distance; the parent-type distance
     decides for `int32 → int64` -/
-example : (resolve .fn_sum [.scalar .int16]).ret? = some (.scalar .int64) := by decide +kernel
+example : (resolve .fn_sum [.scalar (.base .int16)]).ret? = some (.scalar (.base .int64)) := by
+  decide +kernel
 /-- `int16 / int16` is `float32`, `int32 / int32` is `float64` -/
-example : (resolve .op_div [.scalar .int16, .scalar .int16]).ret? = some (.scalar .float32) := by
-  decide +kernel
-example : (resolve .op_div [.scalar .int32, .scalar .int32]).ret? = some (.scalar .float64) := by
-  decide +kernel
+example : (resolve .op_div [.scalar (.base .int16), .scalar (.base .int16)]).ret? =
+    some (.scalar (.base .float32)) := by decide +kernel
+example : (resolve .op_div [.scalar (.base .int32), .scalar (.base .int32)]).ret? =
+    some (.scalar (.base .float64)) := by decide +kernel
 /-- no implicit cast joins `bigint` and `float64` -/
-example : (resolve .op_plus [.scalar .bigint, .scalar .float64]).ret? = none := by decide +kernel
+example : (resolve .op_plus [.scalar (.base .bigint), .scalar (.base .float64)]).ret? = none := by
+  decide +kernel
 
 end EdbVerif.C12
